@@ -35,7 +35,7 @@ REAL_VS_STUB = {"real": ["sdeint, check_contract, BaseSDESolver.integrate, all s
                          "BrownianInterval (real-bm runs)"],
                 "stub": ["StubBrownian (stub-bm runs)", "RecordingBrownian proxy with crash points",
                          "SDE zoo drift/diffusion with crash points"]}
-PROBES = ("ts_dtype_differs", "logqp_runs", "logqp_increments_compared", "bm_dtype_differs", "chunks_total", "chunks_ge_4", "crash_fired_f", "crash_fired_g", "crash_fired_bm", "crash_not_reached",
+PROBES = ("ts_dtype_differs", "logqp_runs", "logqp_increments_compared", "chunks_total", "chunks_ge_4", "crash_fired_f", "crash_fired_g", "crash_fired_bm", "crash_not_reached",
           "extra_state_carried", "negative_control_differs", "negative_control_same", "intermediate_outputs",
           "real_bm", "stub_bm", "f32", "final_step_clipped")
 STATE_MEASURE = "distinct (solver, noise type, steps, cut pattern, crash pattern) tuples"
